@@ -1560,6 +1560,100 @@ pub fn differs_from_alone(alone: &Obs, after: &Obs) -> Option<String> {
     Some(format!("alone: {:?} -> {} (garbled {:?}); after the earlier connection: {:?} -> {:?} (garbled {:?}, {} dangling bytes)", alone.kinds(), alone.result.kind(), alone.garbled, after.kinds(), after.result, after.garbled, after.partial_tail))
 }
 
+/// `case` whose client stays silent for `hold` ms before its step `at` (`at` == number of steps: no hold) and
+/// does not start before `start` ms. Only the client's timing changes, never what it sends.
+pub fn held(case: &Case, at: usize, start: Ms, hold: Ms) -> Case {
+    let mut c = case.clone();
+    let mut add = |c: &mut Case, i: usize, ms: Ms| {
+        if ms > 0 && i < c.script.len() {
+            let w = match c.script[i].when {
+                When::IdleAfter(x) => x,
+                _ => 0,
+            };
+            c.script[i].when = When::IdleAfter(w + ms);
+        }
+    };
+    add(&mut c, 0, start);
+    add(&mut c, at, hold);
+    c
+}
+
+/// Stage-wise interleavings of two connections served by one thread under one clock (`run_many`): A runs its
+/// steps before `s` at 0 ms, B its steps before `r` at 10 ms, A the rest at 100 ms, B the rest at 210 ms - for
+/// every s and r - plus one round-robin interleaving in which each connection yields before every byte of its
+/// client's stream and inside every clientbound frame. Returns (label, A, B).
+pub fn in_company(a: &Case, b: &Case) -> Vec<(String, Case, Case)> {
+    let mut out = vec![];
+    for s in 1..=a.script.len() {
+        for r in 0..=b.script.len() {
+            out.push((format!("A silent for 100 ms before its step {s}/{}; B starts at 10 ms and is silent for 200 ms before its step {r}/{}", a.script.len(), b.script.len()), held(a, s, 0, 100), held(b, r, 10, 200)));
+        }
+    }
+    let fine = |c: &Case| {
+        let o = run(c);
+        let mut c = c.clone();
+        for off in 0..o.emitted {
+            c.transport.splits.push(Split { offset: off, pause: Pause::Yield });
+        }
+        for f in 0..o.packets.len() {
+            c.transport.writes.push(WriteDev { frame: f, prog: vec![WStep::Accept(1), WStep::Yield] });
+        }
+        c
+    };
+    out.push(("both yield before every byte and inside every clientbound frame".into(), fine(a), fine(b)));
+    out
+}
+
+/// Runs every ordered pair of `menu` in every interleaving of [`in_company`] and judges each of the two
+/// connections with the check's own oracle. A verdict against a connection that the same oracle does not reach
+/// when that connection (same client timing) is served alone is reported as `next-to-another-connection:<key>`.
+/// Returns (pair runs, runs in which both connections completed something).
+pub fn judge_in_company<S: Sync + serde::Serialize>(
+    rep: &common::Report,
+    menu: &[(S, Case)],
+    judge: &(dyn Fn(&S, &Case, &Obs) -> Vec<(String, String)> + Sync),
+) -> (u64, u64) {
+    use std::sync::atomic::{AtomicU64, Ordering};
+    let pairs: Vec<(usize, usize)> = (0..menu.len()).flat_map(|a| (0..menu.len()).map(move |b| (a, b))).collect();
+    let (runs, busy) = (AtomicU64::new(0), AtomicU64::new(0));
+    common::par_for(pairs.len(), |i| {
+        let (ia, ib) = pairs[i];
+        let (mut a, mut b) = (menu[ia].1.clone(), menu[ib].1.clone());
+        // two clients, two addresses - unless the case is about the address itself (a cookie is bound to it)
+        if b.cfg.client_addr == a.cfg.client_addr && b.cfg.auth_secret.is_none() {
+            b.cfg.client_addr = "203.0.113.77:50123".parse().unwrap();
+        }
+        a.horizon_ms = a.horizon_ms.max(60_000);
+        b.horizon_ms = b.horizon_ms.max(60_000);
+        for (n, (label, ca, cb)) in in_company(&a, &b).into_iter().enumerate() {
+            let both = run_many(&[ca.clone(), cb.clone()]);
+            runs.fetch_add(1, Ordering::Relaxed);
+            if both.iter().all(|o| o.packets.len() > 1) {
+                busy.fetch_add(1, Ordering::Relaxed);
+            }
+            for (k, (spec, case, obs)) in [(&menu[ia].0, &ca, &both[0]), (&menu[ib].0, &cb, &both[1])].into_iter().enumerate() {
+                let verdicts = judge(spec, case, obs);
+                if verdicts.is_empty() {
+                    continue;
+                }
+                let alone: Vec<String> = judge(spec, case, &run(case)).into_iter().map(|(k, _)| k).collect();
+                for (key, text) in verdicts {
+                    if alone.contains(&key) {
+                        continue;
+                    }
+                    rep.violation(common::Violation {
+                        key: format!("next-to-another-connection:{key}"),
+                        text: format!("connection {} of a pair served by one thread ({label}): {text}; alone the same connection is served correctly. A = {}, B = {}", ["A", "B"][k], serde_json::to_string(&menu[ia].0).unwrap(), serde_json::to_string(&menu[ib].0).unwrap()),
+                        replay: serde_json::json!({"company": {"a": &menu[ia].0, "b": &menu[ib].0, "interleaving": n}}),
+                        weight: 4_000_000 + (i * 100 + n) as u64,
+                    });
+                }
+            }
+        }
+    });
+    (runs.load(Ordering::Relaxed), busy.load(Ordering::Relaxed))
+}
+
 /// Seeds whose first `R` unbiased-select draws realise every bit pattern.
 pub fn seeds_for_patterns(r: usize) -> Vec<u64> {
     let want = 1usize << r;
